@@ -16,7 +16,7 @@ var RTSource string
 
 // Call describes one derive call the scratch package makes for a type.
 type Call struct {
-	Op     string // registry key used in cases ("eq", "eqc", "cmp", "hash", ...)
+	Op     string                           // registry key used in cases ("eq", "eqc", "cmp", "hash", ...)
 	Wrap   func(idx int, tgo string) string // source of the wrapper function(s) in calls.go (no imports)
 	WrapFn func(idx int) string             // name of the wrapper to register
 }
@@ -35,8 +35,8 @@ func Simple(op, prefix, params, res, args string) Call {
 }
 
 var (
-	CallEq   = Simple("eq", "deriveEqual", "a, b %T", "bool", "a, b")
-	CallEqC  = Call{Op: "eqc", Wrap: func(idx int, tgo string) string {
+	CallEq  = Simple("eq", "deriveEqual", "a, b %T", "bool", "a, b")
+	CallEqC = Call{Op: "eqc", Wrap: func(idx int, tgo string) string {
 		return fmt.Sprintf("func eqc_%d(a, b %s) bool { return deriveEqualC_%d(a)(b) }\n", idx, tgo, idx)
 	}, WrapFn: func(idx int) string { return fmt.Sprintf("eqc_%d", idx) }}
 	CallCmp  = Simple("cmp", "deriveCompare", "a, b %T", "int", "a, b")
@@ -48,11 +48,11 @@ var (
 
 // Pkg is a scratch package: declarations + wrappers around derive calls for a list of types.
 type Pkg struct {
-	Dir    string
-	Types  []*Type
-	Idx    []int // global index of each type (used in function names and types.txt)
-	Calls  []Call
-	Extra  map[string]string // additional files
+	Dir   string
+	Types []*Type
+	Idx   []int // global index of each type (used in function names and types.txt)
+	Calls []Call
+	Extra map[string]string // additional files
 }
 
 // Write creates the module: go.mod, decls.go, calls.go, external packages, types.txt; the
@@ -224,7 +224,7 @@ func Batches(types []*Type, idx []int, size int) (bt [][]*Type, bi [][]int) {
 }
 
 var (
-	CallDC    = Call{Op: "dc", Wrap: func(idx int, tgo string) string {
+	CallDC = Call{Op: "dc", Wrap: func(idx int, tgo string) string {
 		return fmt.Sprintf("func dc_%d(dst, src %s) { deriveDeepCopy_%d(dst, src) }\n", idx, tgo, idx)
 	}, WrapFn: func(idx int) string { return fmt.Sprintf("dc_%d", idx) }}
 	CallClone = Simple("clone", "deriveClone", "a %T", "%T", "a")
